@@ -18,6 +18,7 @@ ASSUMPTIONS = ['"no head marks" is exercised as: no node carries a head flag '
                'at all (what an unmarked tree looks like); the case "flags '
                'present but all False" is tallied, not judged']
 WATCHDOG = {'quick': 600, 'thorough': 3600}
+PIPELINE_CASES = {'quick': 500, 'thorough': 20000}   # vt/pipeline.py
 MIN = {'quick': {'distinct': 2000,
                  'hooks': {'transform.binarize': 3000,
                            'transform.collapse_unary_chains': 2000,
